@@ -41,6 +41,9 @@ type ptDesc struct {
 	Tags [][2]string `json:"tags,omitempty"`
 	T    int64       `json:"t"`
 	Zero bool        `json:"zero,omitempty"` // the zero time.Time (year 1): allowed by models.NewPoint
+	// Order (non-empty): the point is built by sending a line of line protocol with the tags
+	// written in this order (positions of Tags) through the real parser instead of models.NewPoint
+	Order []int `json:"order,omitempty"`
 }
 
 type desc struct {
@@ -342,6 +345,15 @@ func mkPoints(d *desc, delta int64) ([]models.Point, error) {
 		if p.Zero {
 			t = time.Time{}
 		}
+		if len(p.Order) > 0 && len(p.Order) == len(p.Tags) && !p.Zero {
+			text := fmt.Sprintf("%s v=1 %d", keyText(p.Name, p.Tags, p.Order), t.UnixNano())
+			q, ok := parseLine(text)
+			if !ok {
+				return nil, fmt.Errorf("line rejected")
+			}
+			pts = append(pts, q)
+			continue
+		}
 		q, err := models.NewPoint(p.Name, models.NewTags(tags), models.Fields{"v": 1.0}, t)
 		if err != nil {
 			return nil, err
@@ -476,7 +488,8 @@ var sdChoices = []int64{1, 2, 7, 1000, int64(time.Minute), int64(time.Hour), int
 	int64(7 * 24 * time.Hour), int64(3 * time.Hour), 12345678901234, int64(100 * 365 * 24 * time.Hour)}
 
 var names = []string{"cpu", "mem", "disk,x", "a b", "m"}
-var tagSets = [][][2]string{nil, {{"host", "a"}}, {{"host", "b"}}, {{"host", "a"}, {"region", "us"}}, {{"t", "1"}}, {{"t", "2"}}, {{"t", "3"}}}
+var tagSets = [][][2]string{nil, {{"host", "a"}}, {{"host", "b"}}, {{"host", "a"}, {"region", "us"}}, {{"t", "1"}}, {{"t", "2"}}, {{"t", "3"}},
+	{{"host", "a"}, {"host-1", "b"}, {"host0", "c"}}, {{"a", "1"}, {"a!", "2"}, {"ab", "3"}}}
 
 func pickSD(r *hx.Rand) int64 {
 	if r.Chance(15) {
@@ -661,6 +674,10 @@ func gen(r *hx.Rand, o *hx.Out) *desc {
 				p.T = c + 2e9
 			}
 		}
+		if len(p.Tags) > 0 && !p.Zero && r.Chance(45) { // written as a line, tags in a random order
+			p.Order = shuffled(r, len(p.Tags))
+			o.Count("point:parsed-line")
+		}
 		d.Points = append(d.Points, p)
 	}
 	d.RT = r.Chance(40)
@@ -741,6 +758,14 @@ func main() {
 	defer o.Close()
 	if f.In != "" {
 		for _, in := range hx.ReadInputs(f.In) {
+			if in.Kind == "key" {
+				var kd keyDesc
+				if err := json.Unmarshal(in.Desc, &kd); err != nil {
+					panic(err)
+				}
+				runKeyCase(o, &kd, "replay")
+				continue
+			}
 			var d desc
 			if err := json.Unmarshal(in.Desc, &d); err != nil {
 				panic(err)
@@ -752,8 +777,14 @@ func main() {
 	for _, d := range designed() {
 		runCase(o, d, "designed", true)
 	}
+	for _, kd := range designedKeys() {
+		runKeyCase(o, kd, "designed")
+	}
 	r := hx.NewRand(f.Seed)
 	for i := 0; i < f.N; i++ {
 		runCase(o, gen(r, o), "gen", true)
+		if i%4 == 0 {
+			runKeyCase(o, genKey(r), "gen")
+		}
 	}
 }
